@@ -349,4 +349,5 @@ def run(ctx: Ctx, tier: str) -> Result:
         res.fail(Finding("C16.PIPE", wk_.qname, "<with trigger_context:>", wk_.loc(), "the trace callback never closes the trigger context: attached log results are not emitted"))
     borrow(ctx, res, tier, "c13", ("C13.ARGS",), "C16.BUILD", "the text an installed log action emits is the one it was registered with: the action's configuration is the builder's own "
            "mapping, not the dict the program passed (and may change or reuse afterwards)")
+    borrow(ctx, res, tier, "c04", ("C04.UNITS", "C04.TABLE"), "C16.ONCE", "one message per *permitted* hit: the limiter that permits is fed and compared in one unit")
     return res
